@@ -1,5 +1,6 @@
 (* C09  Buying power: orders are covered by cash, reserved cash is conserved. *)
 From RQ Require Import Model.Num Model.Account Model.Reserve Proofs.NumFacts Proofs.ReserveFacts.
+From RQ Require Import Model.Broker Proofs.BrokerFacts Gen.BrokerProg.
 Open Scope Q_scope.
 
 (* For every protocol-conforming interleaving of submissions, fills and terminal announcements of any number of
@@ -29,9 +30,20 @@ Example C09_example :
   rs_frozen (fold_left rstep [RPendingNew o; RTrade 1 300] {| rs_frozen := 0; rs_book := [] |}) == (700 # 1000) * 10008.
 Proof. repeat split; vm_compute; reflexivity. Qed.
 
+(* Tie A: SimulationBroker's methods, regenerated from the source on every run as programs over the primitives of Model/Broker.v
+   (Gen/BrokerProg.v): the program of `_match` interprets to the model's matching round, and on_bar / before_trading / after_trading /
+   cancel_order / submit_order are the programs the model was written for (an order leaves BOTH books on cancel, final orders are collected
+   from BOTH books, the matchers are updated BEFORE the bar's orders are matched, everything still open is rejected at the close ...) *)
+Theorem C09_code_broker_is_model :
+  (forall fin ph s, interp fin ph gen_match s = bmatch fin s ph) /\
+  prog_eqb gen_on_bar expected_on_bar && prog_eqb gen_before_trading expected_before_trading && prog_eqb gen_after_trading expected_after_trading &&
+  prog_eqb gen_cancel expected_cancel && prog_eqb gen_submit expected_submit && listeners_as_expected = true.
+Proof. split; [exact gen_match_is_model|exact gen_programs_as_modelled]. Qed.
+
 Print Assumptions C09_frozen_invariant.
 Print Assumptions C09_frozen_nonneg.
 Print Assumptions C09_frozen_zero_when_no_open.
 Print Assumptions C09_release_trade.
 Print Assumptions C09_release_terminal.
 Print Assumptions C09_no_overdraft_step.
+Print Assumptions C09_code_broker_is_model.
